@@ -394,8 +394,7 @@ inline constexpr void Conversion<Unit::MassRate, Unit::MassRate::PoundPerHour>::
 }
 
 template <typename NumericType>
-inline const std::map<Unit::MassRate,
-                      std::function<void(NumericType* values, const std::size_t size)>>
+inline const ConversionTable<Unit::MassRate, NumericType>
     MapOfConversionsFromStandard<Unit::MassRate, NumericType>{
       {Unit::MassRate::KilogramPerSecond,
        Conversions<Unit::MassRate, Unit::MassRate::KilogramPerSecond>::FromStandard<NumericType>},
@@ -430,9 +429,8 @@ inline const std::map<Unit::MassRate,
 };
 
 template <typename NumericType>
-inline const std::
-    map<Unit::MassRate, std::function<void(NumericType* const values, const std::size_t size)>>
-        MapOfConversionsToStandard<Unit::MassRate, NumericType>{
+inline const ConversionTable<Unit::MassRate, NumericType>
+    MapOfConversionsToStandard<Unit::MassRate, NumericType>{
           {Unit::MassRate::KilogramPerSecond,
            Conversions<Unit::MassRate, Unit::MassRate::KilogramPerSecond>::ToStandard<NumericType>},
           {Unit::MassRate::GramPerSecond,
